@@ -155,6 +155,7 @@ def build(path, tr, timeout=0.25, hooks=0):
     class U(db.Entity):
         ts = Set(T)
     db.bind('sqlite', path, create_db=True, timeout=timeout, **tr.bind_kwargs())
+    tr.wrap_locks(db.provider)        # from the start: a set-up session that blocks is then seen waiting for a lock
     db.generate_mapping(create_tables=True)
     with db_session:
         db.execute('create table if not exists raw_t (a int)')
@@ -173,6 +174,21 @@ def build(path, tr, timeout=0.25, hooks=0):
 
 
 class SetupBlocked(Exception): pass
+class Stalled(Exception): pass          # a harness thread made no progress although nobody waits for a lock: machine load, no verdict
+STALL_S = 300.0
+
+
+def wait_thread(t, tr, first):
+    """join `t`: 'done' | 'blocked' (it is alive and a thread has been waiting for a provider lock for > WATCHDOG_S) |
+    'stalled' (alive after STALL_S without any lock wait)"""
+    t.join(first)
+    end = time.time() + STALL_S
+    while t.is_alive() and time.time() < end:
+        if tr.lock_waits:
+            t.join(WATCHDOG_S)
+            if t.is_alive() and tr.lock_waits: return 'blocked'
+        else: t.join(0.2)
+    return 'stalled' if t.is_alive() else 'done'
 _SETUP_BROKEN = [None]
 
 
@@ -183,8 +199,10 @@ def build_watched(path, tr, **kw):
         try: box['E'] = build(path, tr, **kw)
         except BaseException as e: box['e'] = e
     t = threading.Thread(target=target, name='setup', daemon=True)
-    t.start(); t.join(20)
-    if t.is_alive(): raise SetupBlocked('a fault-free set-up session blocked for ever')
+    t.start()
+    st = wait_thread(t, tr, 5)
+    if st == 'blocked': raise SetupBlocked('a fault-free set-up session waits for ever for %r' % (list(tr.lock_waits),))
+    if st == 'stalled': raise Stalled('set-up')
     if 'e' in box: raise box['e']
     return box['E']
 
@@ -243,6 +261,8 @@ def real_case(workdir, case):
         return {'sessions': [], 'blocked': None, 'setup_failed': _SETUP_BROKEN[0]}
     try:
         E = build_watched(path, tr, hooks=case.get('hooks', 0))
+    except Stalled:
+        return {'sessions': [], 'blocked': None, 'stalled': 'set-up'}
     except BaseException as e:
         _SETUP_BROKEN[0] = '%s: %s' % (type(e).__name__, str(e)[:200])
         # the set-up is itself a sequence of fault-free sessions (bind, generate_mapping, one db_session with two DDL
@@ -250,7 +270,6 @@ def real_case(workdir, case):
         from pony.orm import core
         core.local.db2cache.clear(); core.local.db_session = None; core.local.db_context_counter = 0
         return {'sessions': [], 'blocked': None, 'setup_failed': '%s: %s' % (type(e).__name__, str(e)[:200])}
-    tr.wrap_locks(E.db.provider)
     if case['reconnect']:
         E.db.provider.should_reconnect = lambda exc: True       # instance attribute of this provider only
     del Pool.forked_connections[:]
@@ -295,11 +314,11 @@ def real_case(workdir, case):
         out['thread_done'] = True
 
     t = threading.Thread(target=in_thread, name='case-%d' % case['id'], daemon=True)
-    t.start(); t.join(WATCHDOG_S * 3)
-    end = time.time() + 30
-    while t.is_alive() and not tr.lock_waits and time.time() < end: t.join(0.2)      # slow machine, nobody waits for a lock
-    if t.is_alive(): t.join(WATCHDOG_S)
-    if t.is_alive():
+    t.start()
+    st = wait_thread(t, tr, WATCHDOG_S * 3)
+    if st == 'stalled':
+        return {'sessions': [], 'blocked': None, 'stalled': 'case thread after %d sessions' % len(out['sessions'])}
+    if st == 'blocked':
         out['blocked'] = {'where': 'case thread', 'waits': list(tr.lock_waits), 'sessions_done': len(out['sessions']),
                           'events': tr.compact(tr.events[-12:])}
         return out
@@ -307,7 +326,7 @@ def real_case(workdir, case):
     m = tr.mark()
     def other():
         return run_session(E, FOLLOW[0], FOLLOW[1])
-    st, r = Watchdog.run(other, WATCHDOG_S, name='other-%d' % case['id'], slow_ok=lambda: not tr.lock_waits)
+    st, r = Watchdog.run(other, WATCHDOG_S, name='other-%d' % case['id'], slow_ok=lambda: not tr.lock_waits, grace=STALL_S)
     out['other'] = {'status': st if st != 'ok' else ('ok' if r is None else 'raised'), 'exc': repr(r)[:200] if r is not None else None,
                     'waits': list(tr.lock_waits) if st == 'blocked' else []}
     out['lock_after'] = E.db.provider.transaction_lock.locked()
@@ -563,6 +582,10 @@ def run_cases(ctx, cases, workdir):
 
 
 def check_cases(ctx, cases, reals):
+    for c in cases:
+        if reals[c['id']].get('stalled'):
+            ctx.count('stalled-under-load-rerun')
+            reals[c['id']] = real_case(getattr(ctx, '_c19_workdir', None) or ponyutil.workdir('c19'), c)
     reqs = []
     for c in cases:
         r = reals[c['id']]
@@ -573,6 +596,9 @@ def check_cases(ctx, cases, reals):
     for c, m in zip(cases, models):
         r = reals[c['id']]
         cj = case_json(c)
+        if r.get('stalled'):
+            ctx.divergence('the real run made no progress for %d s, twice, although no thread waited for a provider lock (%s)' % (STALL_S, r['stalled']), cj)
+            continue
         if 'crash' in r:
             raise RuntimeError('harness crashed on %r:\n%s' % (cj, r['crash']))
         foreign = c['exc_class'] in FOREIGN_EXC
@@ -653,7 +679,6 @@ def thread_case(workdir, tc):
     for ext in ('', '-journal', '-wal', '-shm'):
         if os.path.exists(path + ext): os.remove(path + ext)
     E = build_watched(path, tr, timeout=2.0)
-    tr.wrap_locks(E.db.provider)
     mark = tr.mark()
     a_holds, gate = threading.Event(), threading.Event()
     a_in = threading.Event()
@@ -688,15 +713,13 @@ def thread_case(workdir, tc):
         wait_for(lambda: ['C', 'pre_acquire'] in tr.lock_waits or ['C', 'acquire'] in tr.lock_waits or 'C' in res, 1.5)
     queued = sorted(w[0] + ':' + w[1] for w in tr.lock_waits)
     gate.set()
-    blocked = []
+    blocked, stalled = [], []
     for n in names:
-        threads[n].join(WATCHDOG_S)
-        end = time.time() + 30
-        while threads[n].is_alive() and not tr.lock_waits and time.time() < end: threads[n].join(0.2)
-        if threads[n].is_alive(): threads[n].join(WATCHDOG_S)
-        if threads[n].is_alive(): blocked.append(n)
+        w = wait_thread(threads[n], tr, WATCHDOG_S)
+        if w == 'blocked': blocked.append(n)
+        elif w == 'stalled': stalled.append(n)
     evs = tr.since(mark)
-    out = {'names': names, 'results': res, 'blocked': blocked, 'queued': queued, 'waits': list(tr.lock_waits),
+    out = {'names': names, 'results': res, 'blocked': blocked, 'stalled': stalled, 'queued': queued, 'waits': list(tr.lock_waits),
            'lock': E.db.provider.transaction_lock.locked(), 'pre': E.db.provider.pre_transaction_lock.locked(),
            'lock_order': [[e['thread'], e['call'], e['outcome']] for e in evs if e['i'] is None],
            'per_thread': {n: tr.compact([e for e in evs if e['thread'] == n]) for n in names},
@@ -737,6 +760,9 @@ def thread_scenarios(ctx, workdir):
                             'exc_class': EXC_CLASSES[0]})
     try:
         reals = [thread_case(workdir, tc) for tc in tcs]
+        for i, tc in enumerate(tcs):
+            if reals[i].get('stalled'):          # no progress although nobody waits for a lock: machine load -> once more, alone
+                ctx.count('stalled-under-load-rerun'); reals[i] = thread_case(workdir, tc)
     except Exception as e:
         ctx.note('thread scenarios skipped: set-up failed (%s)' % type(e).__name__); return
     reqs, where = [], []
@@ -765,6 +791,8 @@ def thread_scenarios(ctx, workdir):
                 holder = None
         for pb in problems:
             ctx.violation(pb, inp, observed=r, expected='mutual exclusion, every thread finishes, locks free at the end', key=key)
+        if r.get('stalled'):
+            ctx.divergence('threads %s made no progress for %d s, twice, although no thread waited for a provider lock' % (r['stalled'], STALL_S), inp); continue
         if r['blocked']: continue
         # ---- correspondence 1: each thread's own event sequence is what the model predicts for the faults it met
         lock_lists = []
@@ -851,6 +879,7 @@ def run(ctx):
     workdir = ponyutil.workdir('c19')
     try:
         _SETUP_BROKEN[0] = None
+        ctx._c19_workdir = workdir
         probe_init_guard(ctx, workdir)
         _BASE.clear()
         cases = generate_cases(ctx) if ctx.driver.ok else []
@@ -872,6 +901,7 @@ def replay(ctx, data):
     inp = data.get('input') or {}
     if 'shape' not in inp: return run(ctx)
     workdir = ponyutil.workdir('c19')
+    ctx._c19_workdir = workdir
     try:
         probe_init_guard(ctx, workdir)
         exc = getattr(sqlite3, inp.get('exc_class', 'OperationalError'), None) or {'MemoryError': MemoryError, 'KeyboardInterrupt': KeyboardInterrupt}[inp['exc_class']]
